@@ -199,6 +199,66 @@ pub fn gen_magic_batch(d: &mut D) -> Vec<Spec> {
             specs.push(s);
         }
     }
+    // `attrs` with an empty forward_attrs() list and no attributes(..): nothing is read, nothing is
+    // forwarded, the field holds an empty vector
+    for tr in [Trait::FromDeriveInput, Trait::FromField, Trait::FromVariant, Trait::FromTypeParam] {
+        let sid = next(&specs);
+        let mut s = base_spec(sid, tr, "c16");
+        s.container.attributes = vec![];
+        s.container.forward_attrs = Fwd::List(vec![]);
+        s.magic = vec![magic("attrs"), magic("ident")];
+        specs.push(s);
+    }
+    specs
+}
+
+pub const SHAPE_WORDS: [&str; 11] = ["any", "struct_any", "struct_named", "struct_newtype", "struct_tuple", "struct_unit", "enum_any", "enum_named", "enum_newtype", "enum_tuple", "enum_unit"];
+pub const VARIANT_WORDS: [&str; 5] = ["any", "named", "newtype", "tuple", "unit"];
+
+/// C18 part b: receivers that only declare `supports(..)`. `n` FromDeriveInput subsets (a covering
+/// family: every subset of size <= 2 first; all 2^11 when n >= 2048) and all 32 FromVariant subsets.
+pub fn gen_shapes_batch(d: &mut D, n: usize) -> Vec<Spec> {
+    let mut masks: Vec<usize> = vec![];
+    if n >= 2048 {
+        masks = (0..2048).collect();
+    } else {
+        masks.push(0);
+        for i in 0..11 {
+            masks.push(1 << i);
+        }
+        for i in 0..11 {
+            for j in (i + 1)..11 {
+                masks.push((1 << i) | (1 << j));
+            }
+        }
+        while masks.len() < n {
+            let m = d.below(2048);
+            if !masks.contains(&m) {
+                masks.push(m);
+            }
+        }
+        masks.truncate(n.max(67));
+    }
+    let mut specs = vec![];
+    for m in masks {
+        let id = specs.len();
+        let mut s = base_spec(id, Trait::FromDeriveInput, "c18");
+        s.container.attributes = vec![];
+        s.container.supports = Some(SHAPE_WORDS.iter().enumerate().filter(|(i, _)| m & (1 << i) != 0).map(|(_, w)| w.to_string()).collect());
+        specs.push(s);
+    }
+    for m in 0..32usize {
+        let id = specs.len();
+        let mut s = base_spec(id, Trait::FromVariant, "c18");
+        s.container.attributes = vec![];
+        s.container.supports = Some(VARIANT_WORDS.iter().enumerate().filter(|(i, _)| m & (1 << i) != 0).map(|(_, w)| w.to_string()).collect());
+        specs.push(s);
+    }
+    // and receivers without any supports(..): everything is accepted
+    let id = specs.len();
+    let mut s = base_spec(id, Trait::FromDeriveInput, "c18");
+    s.container.attributes = vec![];
+    specs.push(s);
     specs
 }
 
@@ -223,7 +283,7 @@ pub const FOREIGN: &[&str] = &[
 
 pub fn gen_attrset(w: &World, recv: Option<&Spec>, d: &mut D, mode: Mode, st: &mut InputStats, allow_absent: bool) -> AttrSet {
     let mut a = AttrSet::default();
-    if let Some(s) = recv {
+    if let Some(s) = recv.filter(|s| !s.container.attributes.is_empty()) {
         a.name = d.pick(&s.container.attributes).clone();
         let nodes = gen::gen_items(w, s, d, mode, 1, st);
         // an element without the attribute at all (fine when nothing is required)
